@@ -40,17 +40,19 @@ def run(ctx):
 
 MANIFEST = dict(
     category="proof",
-    text="Theorems over an executable model of iptables.Table (hash read-back, dirty tracking, positional delta, hook "
-         "re-insertion, stale-chain cleanup, retry loop) and of iptables-restore: foreign rules/chains are never touched by "
-         "any Apply (any failures, racing edits, stale caches); a chain whose hashes already match gets no line in the "
-         "restore input; one accepted restore transaction computed from an accurate read-back brings every chain to its "
-         "target (owned chains = wanted rules, stale chains gone, hooks at the configured position) - partial: the step "
-         "from loadDataplaneState's marking to that hypothesis and the API-call part of the history invariant are not "
-         "proved; plus a correspondence run of the model and a history-level spec oracle (convergence, foreign untouched, "
-         "no rewrite) against the real Table driven through MockDataplane.",
-    note="Trusted: Coq kernel; hand-written model tied to the code only by the correspondence run; Go driver. BackendMode nft is modelled and covered by c15_foreign_untouched and the correspondence/oracle run (its two transactions taken as one atomic unit); "
-         "the convergence / no-rewrite theorems are stated for the legacy backend. Not covered: "
-         "nftables backend (felix/nftables/table.go), cleanup-only tables, timers "
-         "(enter as explicit invalidate events), chain-reference constraints of --delete-chain. Finding force-downgrade-refcount-leak: fixed in /repo (3795ecd); the "
-         "model carries both variants (cf_fix, probed by the driver).",
+    text="Theorems over an executable model of iptables.Table (hash read-back, dirty tracking, positional delta / nft "
+         "flush-and-rewrite, hook re-insertion, stale-chain cleanup, reference counts, retry loop) and of iptables-restore: "
+         "from ANY kernel table and any Table state satisfying the proved history invariant, a successful Apply after a "
+         "re-read brings every chain to its target (owned chains = wanted rules in order, stale chains and stale/old-hash "
+         "hook rules gone, hooks at the configured position); foreign rules/chains are never touched by any Apply (any "
+         "failures, racing edits, stale caches); a chain whose hashes already match gets no line in the restore input; the "
+         "invariant holds after every history of API calls, failed applies, out-of-band edits and restarts; fuel of the "
+         "refcount recursion is sufficient on acyclic chain graphs; plus a correspondence run of the model and a "
+         "history-level spec oracle against the real Table driven through MockDataplane (legacy and nft BackendMode).",
+    note="Trusted: Coq kernel; hand-written model tied to the code only by the correspondence run; Go driver. Hypotheses of "
+         "the theorems: no forged hashes (RuleHashes collision-free), iptables-restore atomic (nft: both transactions one "
+         "unit), API discipline op_ok, kernel chain names not Felix-owned. Not covered: nftables backend "
+         "(felix/nftables/table.go), cleanup-only tables, timers (enter as explicit invalidate events), chain-reference "
+         "constraints of --delete-chain; the no-rewrite theorems are stated for the legacy backend. Finding "
+         "force-downgrade-refcount-leak: fixed in /repo (3795ecd); the model carries both variants (cf_fix, probed).",
 )
